@@ -896,7 +896,7 @@ WARM = (
     '  for x in (s.elements if s.is_space else s.candidates): yield from _walk(x)\n'
     'def _use(s):\n'
     '  [x.space_size for x in _walk(s)]; s.random_dna(random.Random(0))\n'
-    '  [s.validate(d) for d in I.islice(s.iter_dna(), 30)]\n')
+    '  [s.validate(d) for d in I.islice(s.iter_dna(), 8)]\n')
 
 
 # =============================================================================
@@ -1168,9 +1168,9 @@ def _iter_checks(cx, full_cap, light=False):
     idx = list(range(n)) if n <= 6 else sorted(set(
         [0, n - 1] + r.sample(range(n), 2 if tier == 'quick' else 4)))
     if light:
-      idx = sorted(set([0, n - 1] + ([r.randrange(n)] if n else [])))
+      idx = sorted(set([n - 1] + ([r.randrange(n)] if n else [])))
     # iteration resumed after a given (unbound) member, exclusive
-    if 2 <= n <= (16 if tier == 'quick' else 10**9) and not (light and n > 8):
+    if 2 <= n <= (16 if tier == 'quick' else 10**9) and not light:
       i = r.randrange(n - 1)
       try:
         tail = [shape(d) for d in itertools.islice(
@@ -1490,9 +1490,10 @@ def _random_checks(cx, draws):
   rec, m, spec, r = cx.rec, cx.m, cx.spec, cx.r
   cls = _multi_class(m) if is_finite(m) else 'float-or-custom'
   prev = None
+  first = 0 if draws >= 4 else r.randrange(4)    # entry points in rotation
   for j in range(draws):
     s = r.randrange(10**6)
-    mode = j % 4
+    mode = (first + j) % 4
     try:
       if mode == 0:
         d = spec.random_dna(_random.Random(s))
@@ -1541,7 +1542,7 @@ def _random_checks(cx, draws):
                cx.wit(f'import random\nassert {call}.spec is None'))
 
 
-def _sweep_checks(cx, recover=True):
+def _sweep_checks(cx, light=False):
   """pg.geno.Sweeping proposes the member sequence."""
   rec, m, spec, r = cx.rec, cx.m, cx.spec, cx.r
   mem = cx.mem
@@ -1563,6 +1564,8 @@ def _sweep_checks(cx, recover=True):
            err or f'proposed {[flat(shape(d)) for d in got]!r}, want {want!r}',
            cx.wit('a = pg.geno.Sweeping(); a.setup(spec)\n'
                   f'got = [d.to_numbers() for d in a]\nassert got == {want!r}, got'))
+  if light:
+    return
   algo = pg.geno.Sweeping()
   algo.setup(spec)
   got2 = [shape(d) for d in itertools.islice(iter(algo), len(mem) + 3)]
@@ -1578,7 +1581,7 @@ def _sweep_checks(cx, recover=True):
                   f'assert a.num_proposals == {len(mem)}, a.num_proposals'))
   # recover from a history prefix, then continue
   j = r.randrange(1, len(mem) + 1) if mem else 0
-  if j and recover:
+  if j:
     algo = pg.geno.Sweeping()
     algo.setup(spec)
     algo.recover([(mk(t).use_spec(spec), None) for t in mem[:j]])
@@ -1634,7 +1637,7 @@ def drv_single_point_subspaces(tier, seed):
   """Candidates that are non-empty sub-spaces with exactly one point."""
   rec = Recorder(
       PROP, 'conditional sub-spaces of size 1 that still hold decision points',
-      scope=('19 hand-picked specs + seeded conditional choices (n=2, k<=2 '
+      scope=('19 hand-picked specs + 6 seeded conditional choices (n=2, k<=2 '
              '(thorough n<=3, k<=3), every distinct/sorted) whose candidates '
              'are drawn from {constant, oneof([c]), manyof(2,[c,c],sorted), '
              'manyof(2,[c],distinct=False), space of two forced elements, '
@@ -1646,7 +1649,7 @@ def drv_single_point_subspaces(tier, seed):
   specs = single_point_roots()
   menu = [C, S2] + SINGLE_POINT
   if tier == 'quick':
-    specs += conditional_family([2], [1, 2], menu, 30, r, 12)
+    specs += conditional_family([2], [1, 2], menu, 16, r, 6)
   else:
     specs += conditional_family([2], [1, 2, 3], menu, 200)
     specs += conditional_family([3], [1, 2, 3], menu, 200, r, 150)
@@ -1655,11 +1658,11 @@ def drv_single_point_subspaces(tier, seed):
     cx = Cx(rec, m, r, tier)
     _size_checks(cx)
     _iter_checks(cx, 40 if quick else 260, light=quick)
-    _member_checks(cx, 4 if quick else 12, 12 if quick else 60,
-                   6 if quick else 20)
-    _random_checks(cx, 4 if quick else 16)
-    if len(cx.mem) <= (12 if quick else 36):
-      _sweep_checks(cx, recover=not quick)
+    _member_checks(cx, 3 if quick else 12, 8 if quick else 60,
+                   4 if quick else 20)
+    _random_checks(cx, 3 if quick else 16)
+    if len(cx.mem) <= (6 if quick else 36):
+      _sweep_checks(cx, light=quick)
   return rec.result()
 
 
@@ -1682,17 +1685,17 @@ def _edit_bases(tier, r):
   ]
   extra = [m for m in handpicked_roots() + single_point_roots()
            + leaf_family(3, 3) if m not in bases and count_members(m) <= 30]
-  return bases + r.sample(extra, 8 if tier == 'quick' else len(extra))
+  return bases + r.sample(extra, 1 if tier == 'quick' else len(extra))
 
 
 def drv_edited_specs(tier, seed):
   """The statement holds for a spec object after it was used and edited."""
   quick = tier == 'quick'
   steps = 3 if quick else 6
-  cap = 30 if quick else 80
+  cap = 12 if quick else 80
   rec = Recorder(
       PROP, 'a specification edited in place is again an exact specification',
-      scope=(f'{20 if quick else "all"} finite base specs (<=30 members), '
+      scope=(f'{13 if quick else "all"} finite base specs (<=30 members), '
              f'each taken through a seeded chain of {steps} in-place edits '
              '(edit kinds taken round-robin: num_choices / distinct / sorted / '
              'several flags at once; append, insert, remove, replace a '
@@ -1748,14 +1751,16 @@ def drv_edited_specs(tier, seed):
               pre=f'edited[{EDIT_GROUP[kind]}]')
       new_keys = set(tkey(t) for t in cx.mem)
       stale = [t for t in old_mem if tkey(t) not in new_keys]
-      stale = stale if len(stale) <= 4 else r.sample(stale, 4)
+      n_stale = 2 if quick else 6
+      stale = stale if len(stale) <= n_stale else r.sample(stale, n_stale)
       _size_checks(cx)
       _iter_checks(cx, cap, light=True)
-      _member_checks(cx, 4, 8 if quick else 30, 4 if quick else 12,
+      _member_checks(cx, 3 if quick else 8, 5 if quick else 30,
+                     3 if quick else 12,
                      extra=[('member-before-the-edit', t) for t in stale])
-      _random_checks(cx, 4)
-      if len(cx.mem) <= (10 if quick else 36):
-        _sweep_checks(cx, recover=not quick)
+      _random_checks(cx, 3 if quick else 8)
+      if len(cx.mem) <= (6 if quick else 36):
+        _sweep_checks(cx, light=quick)
   return rec.result()
 
 
